@@ -24,6 +24,7 @@ RULE = ("documents valid for every exported class (structure from the instance g
         "integer part; strings with each special character escaped (six entities) or raw where legal; EVERY enumeration token (round-robin per "
         "run); date-times in all four notations + offset-without-ms x offsets (fractional, negative, unsigned) x names; times. Rendered as XML, "
         "SGML and mixtures with a v1 or v2 header. A case = (class, seed); non-trivial = document with >= 1 data element")
+RULE += " Added later: harness-written version-1 files in CHARSET 1252 / ISO-8859-1 / NONE with the characters on which the sets differ; digits followed by a bare separator ('100.')."
 ASSUMPTIONS = ["ref_types.py (self-tested)", "the type, limit, scale and enumeration tokens of every element are taken from vf/oracles/spec_table.json, a copy of the element "
                "declarations frozen from the reviewed tree (tools/mkspec.py) that stands in for the OFX specification; children the table does not know are typed by the live declaration and counted", "document structure validity from the instance generator; rendering by gen/render.py cross-checked by ref_sgml in C02",
                "decimal texts carry no more fractional digits than the declared scale (rounding mode is not specified by the property)"]
